@@ -99,6 +99,31 @@ Theorem C11_source_pop : forall s i, Inv s -> valid_op (m_live s) (Pop i) = true
 Proof. exact source_pop. Qed.
 Print Assumptions C11_source_pop.
 
+Theorem C11_source_add : forall s x, src_add s x = (m_add s x, Ok RNone).
+Proof. exact source_add. Qed.
+Print Assumptions C11_source_add.
+
+Theorem C11_source_discard : forall s x, Inv0 s -> src_discard s x = (m_discard gen_cfg s x, Ok RNone).
+Proof. exact source_discard. Qed.
+Print Assumptions C11_source_discard.
+
+Theorem C11_source_clear : forall s, src_clear s = (m_clear s, Ok RNone).
+Proof. exact source_clear. Qed.
+Print Assumptions C11_source_clear.
+
+Theorem C11_source_reverse : forall s, src_reverse s = (m_reverse s, Ok RNone).
+Proof. exact source_reverse. Qed.
+Print Assumptions C11_source_reverse.
+
+(* sort: sorted(self, **kwargs) is an input of the generated function *)
+Theorem C11_source_sort : forall s r, src_sort s (fun l => py_sorted l r) = (m_sort s r, Ok RNone).
+Proof. exact source_sort. Qed.
+Print Assumptions C11_source_sort.
+
+Theorem C11_source_sort_key : forall s m r, src_sort s (fun l => py_sorted_key l m r) = (m_sort_key s m r, Ok RNone).
+Proof. exact source_sort_key. Qed.
+Print Assumptions C11_source_sort_key.
+
 (* s[a:b:k], k > 0: iter_slice + islice = the list slice of CPython *)
 Theorem C11_slice : forall s a b k, Inv s -> valid_op (m_live s) (Slice a b k) = true ->
   m_slice s a b k = snd (spec_step (m_live s) (Slice a b k)).
